@@ -87,6 +87,8 @@ pub fn run(sc: &Value) -> Vec<Value> {
     let mut m = Map::new();
     m.insert("ev".into(), json!("SOpen"));
     m.insert("L".into(), l);
+    // who produced the bytes: "writer" = this crate's writer from a valid program (such an archive MUST be streamable)
+    m.insert("origin".into(), json!(sc.get("origin").and_then(|x| x.as_str()).unwrap_or("foreign")));
     m.insert("under".into(), under.clone());
     m.insert("plan".into(), json!(plan));
     push(m);
